@@ -341,6 +341,7 @@ func main() {
 	}
 	var mu sync.Mutex
 	runs, fails, traced := 0, 0, 0
+	countDrift := 0
 	sigCount := map[string]int{}
 	var traceOut *os.File
 	if hooksPresent && tracePath != "-" {
@@ -432,9 +433,14 @@ func main() {
 							}
 							trace = append(trace, traceLine{"ev": "exit", "status": gotStatus, "errors": gotErrs})
 						}
-						if gotStatus != status || (gotErrs != nerr && gotErrs >= 0) {
-							fl = append(fl, failure{"ExitStatusIffSomeFileFailed", "exit status / error count differs from the number of files that failed",
+						if gotStatus != status {
+							fl = append(fl, failure{"ExitStatusIffSomeFileFailed", "the command fails although no file failed, or succeeds although a file failed",
 								map[string]any{"run": run, "got": fmt.Sprint(err), "want_status": status, "want_errors": nerr}})
+						} else if gotErrs != nerr && gotErrs >= 0 {
+							// the number in the message is not part of the property
+							mu.Lock()
+							countDrift++
+							mu.Unlock()
 						}
 						got, serr := snap(root)
 						if serr != nil {
@@ -487,7 +493,7 @@ func main() {
 	}
 	runJobs(jobs, 12)
 	runJobs(hooked, 1)
-	vhlib.Summary(map[string]any{"cases": len(cases), "runs": runs, "jobs": len(jobs) + len(hooked), "hooked_runs": len(hooked), "fails": fails, "worker_counts": workers, "reps": reps,
+	vhlib.Summary(map[string]any{"cases": len(cases), "runs": runs, "jobs": len(jobs) + len(hooked), "hooked_runs": len(hooked), "error_count_drift": countDrift, "fails": fails, "worker_counts": workers, "reps": reps,
 		"hooks": hooksPresent, "traced_runs": traced, "hook_events": hookEventCount(), "perturbations": perturbCount(), "signatures": sigCount})
 }
 
